@@ -5,7 +5,7 @@
 // about the algorithms (interval discipline, step-size bounds, Runge-Kutta structure) are decided.
 pub type Float = f64;
 global size_of usize == 8;
-pub mod fdefs { use vstd::prelude::*;
+pub mod fdefs { use vstd::prelude::*; use vstd::std_specs::cmp::*; use core::cmp::Ordering;
 pub uninterp spec fn R(x: f64) -> real;
 pub open spec fn rabs(a: real) -> real { if a >= 0real { a } else { 0real - a } }
 pub open spec fn rmin(a: real, b: real) -> real { if a <= b { a } else { b } }
@@ -21,7 +21,13 @@ pub uninterp spec fn s_neg(x: f64) -> f64;
 pub uninterp spec fn s_of_usize(x: usize) -> f64;
 pub uninterp spec fn s_is_nan(x: f64) -> bool;
 pub uninterp spec fn EPSILON_s() -> f64;
-pub uninterp spec fn vac(k: int) -> bool;   // vacuity probes: `if vac(k) { assert(false) }` must FAIL in every run
+pub uninterp spec fn vac(k: int) -> bool;
+pub open spec fn f_le(a: f64, b: f64) -> bool { a.partial_cmp_spec(&b) == Some(Ordering::Less) || a.partial_cmp_spec(&b) == Some(Ordering::Equal) }
+pub open spec fn f_lt(a: f64, b: f64) -> bool { a.partial_cmp_spec(&b) == Some(Ordering::Less) }
+pub open spec fn f_ge(a: f64, b: f64) -> bool { a.partial_cmp_spec(&b) == Some(Ordering::Greater) || a.partial_cmp_spec(&b) == Some(Ordering::Equal) }
+pub open spec fn f_gt(a: f64, b: f64) -> bool { a.partial_cmp_spec(&b) == Some(Ordering::Greater) }
+/// World R: every value is finite
+pub open spec fn finite(x: f64) -> bool { true }   // vacuity probes: `if vac(k) { assert(false) }` must FAIL in every run
 }
 pub use fdefs::*;
 pub mod fp { use vstd::prelude::*; use vstd::std_specs::ops::*; use vstd::std_specs::cmp::*; use core::cmp::Ordering; use super::fdefs::*;
